@@ -40,7 +40,7 @@ var c10Hostile = []string{
 type c10Plan struct{ nCorpus, nHostile, nNest, nLong, nRand, nProbe int }
 
 func c10PlanFor(tier string) c10Plan {
-	return c10Plan{nCorpus: len(c10Corpus), nHostile: len(c10Hostile), nNest: 60, nLong: 14, nRand: tierN(tier, 40000, 1000000), nProbe: 4}
+	return c10Plan{nCorpus: len(c10Corpus), nHostile: len(c10Hostile), nNest: 60, nLong: 15, nRand: tierN(tier, 40000, 1000000), nProbe: 4}
 }
 
 // c10Reachable: data in which every identifier the generators use resolves,
@@ -352,11 +352,32 @@ func c10Run(c *mon.Ctx, idx int) {
 		case 12:
 			s = "a == 1" + strings.Repeat(" or not b == 2", 10000)
 		case 13:
-			s = "any a as x { " + strings.Repeat("not (", 7) + "x == 1" + strings.Repeat(")", 7) + " } or a is empty"
+			s = "a is empty or any a as x { " + strings.Repeat("not (", 7) + "x == 1" + strings.Repeat(")", 7) + " }"
+		case 14:
+			// thorough tier only (about 4*10^8 parser steps per call): still a
+			// sentence of the language, and nobody asked for a budget
+			if c.Tier != "thorough" {
+				c.Count("long_inputs")
+				return
+			}
+			s = strings.Repeat("(", 10) + "a == 1" + strings.Repeat(")", 10)
 		}
 		if k >= 8 {
 			c.Risk(fmt.Sprintf("unlimited-parse expensive-valid-%d (must survive)", k))
 			c.Count("expensive_valid_inputs")
+			// valid by construction: with no budget given it must be accepted
+			if _, verr, vpan, _ := parsePublic(s); vpan != "" || verr != nil {
+				c.Violation("C10 valid-expensive-input-rejected", "an expression that is valid by construction was rejected although no budget was given", map[string]any{"input_shape": clip(s, 60), "bytes": len(s), "error": clip(fmt.Sprint(verr)+vpan, 200)})
+				return
+			}
+			if k == 14 {
+				ev, cerr, cpan, _ := createEval(s)
+				if cpan != "" || cerr != nil || ev == nil {
+					c.Violation("C10 valid-expensive-input-rejected", "CreateEvaluator rejected an expression that is valid by construction although no budget was given", map[string]any{"input_shape": clip(s, 60), "error": clip(fmt.Sprint(cerr)+cpan, 200)})
+				}
+				c.Count("long_inputs")
+				return
+			}
 		}
 		c10Check(c, s, "long-token", 0)
 		c.Count("long_inputs")
